@@ -71,7 +71,7 @@ LineOf(p) == IF InStart(p) THEN 1 ELSE 3
 
 Event(p, cls, out, enc, wire) ==
     [out |-> out, wire |-> wire, sup |-> RepSeq(cls), enc |-> enc, line |-> LineOf(p),
-     pre |-> PreOf(p), post |-> PostOf(p), nfields |-> NFields(p), body |-> <<>>]
+     pre |-> PreOf(p), post |-> PostOf(p), nfields |-> NFields(p), body |-> <<>>, unit |-> "head"]
 
 TodayEvent(p, cls) ==
     IF Refused(p, cls) THEN Event(p, cls, "refused", TodayEnc(p), <<>>)
